@@ -32,7 +32,7 @@ def main() -> int:
     skip_tests = "--skip-tests" in sys.argv
     sid, src, prop = args[0], pathlib.Path(args[1]), args[2]
     checks = args[3:] or [prop]
-    env = dict(os.environ, PYTHONPATH=str(WT / "src"))
+    env = dict(os.environ, PYTHONPATH=str(WT / "src") + os.pathsep + str(WT), KIO_REPO=str(WT))
     sh(["git", "-C", str(WT), "checkout", "-q", "--", "."])
     sh(["git", "-C", str(WT), "clean", "-fdq", "--", "src", "codegen"])
     record: dict = {"confirmed_at": time.strftime("%Y-%m-%d %H:%M:%S"), "base_commit": sh(["git", "-C", str(WT), "rev-parse", "--short", "HEAD"]).stdout.strip()}
